@@ -13,7 +13,8 @@
 //                                        W3 free everything; prints `T step ...` records with what the shim saw
 //                                        and what is expected, and F records of the real segment/arenas around
 //                                        the non-forced purge.
-//   t_purge X <seed>                     the two-arena witness of `arena-global-expiry-reset`.
+//   t_purge X <seed> / t_purge X2 <seed> the two regression scenarios of `arena-global-expiry-reset` (two arenas; one arena
+//                                        with a forced collect in the history): a pending arena must be purged by non-forced passes.
 #include REPO_STATIC
 #include <stdio.h>
 #include <stdlib.h>
@@ -500,12 +501,14 @@ static void workloads(long delay, int decommits) {
   printf("T total madvise=%zu mprotect=%zu mmap=%zu munmap=%zu\n", shim_count(SHIM_MADVISE), shim_count(SHIM_MPROTECT), shim_count(SHIM_MMAP), shim_count(SHIM_MUNMAP));
 }
 
-// ---------------------------------------------------------------- X: two arenas, the global expiry is reset while one arena is pending
-static void witness(void) {
+// ---------------------------------------------------------------- X: regression scenarios for `arena-global-expiry-reset`
+// (repaired by c59c73f): an arena whose own expiry had not passed when a pass ran must still be purged by later
+// NON-forced passes.  X1: two arenas.  X2: the default single arena with one forced collect in the history.
+static void witness_two_arenas(void) {
   mi_option_set(mi_option_arena_reserve, 0);
   const long adelay = mi_option_get(mi_option_purge_delay) * mi_option_get(mi_option_arena_purge_mult);
   mi_arena_id_t ida, idb;
-  if (mi_reserve_os_memory_ex(4 * MI_ARENA_BLOCK_SIZE, true, false, true, &ida) != 0 || mi_reserve_os_memory_ex(4 * MI_ARENA_BLOCK_SIZE, true, false, true, &idb) != 0) { printf("T witness setup-failed\n"); return; }
+  if (mi_reserve_os_memory_ex(4 * MI_ARENA_BLOCK_SIZE, true, false, true, &ida) != 0 || mi_reserve_os_memory_ex(4 * MI_ARENA_BLOCK_SIZE, true, false, true, &idb) != 0) { printf("T witness scenario=two-arenas setup=0\n"); return; }
   mi_heap_t* ha = mi_heap_new_in_arena(ida);
   mi_heap_t* hb = mi_heap_new_in_arena(idb);
   void* pa = mi_heap_malloc(ha, 4 * 1024 * 1024);
@@ -520,23 +523,44 @@ static void witness(void) {
   shim_clock_advance_ms(adelay / 2);
   mi_free(pb);                                   // t0+adelay/2: B.expire = t0+1.5 adelay, global unchanged
   shim_clock_advance_ms(adelay / 2 + adelay / 5);
-  mi_collect(false);                             // t0+1.2 adelay: pass purges A, B not yet expired, global reset to 0
-  const size_t madv1 = shim_count(SHIM_MADVISE);
+  mi_collect(false);                             // t0+1.2 adelay: the pass purges A; B has not expired yet
   const long long g1 = (long long)mi_atomic_loadi64_relaxed(&mi_arenas_purge_expire);
   const long long eb1 = (long long)mi_atomic_loadi64_relaxed(&Bq->purge_expire);
   size_t pur_b1; shim_range_stats(sb, MI_SEGMENT_SIZE, NULL, NULL, NULL, &pur_b1);
-  // idle: only non-forced collects and unrelated small allocations, far beyond B's expiry
-  for (int i = 0; i < 5; i++) { shim_clock_advance_ms(100 * adelay); mi_collect(false); void* q = mi_malloc(100); mi_free(q); }
-  const size_t madv2 = shim_count(SHIM_MADVISE);
+  // idle: only non-forced collects and unrelated small allocations, beyond B's expiry and one more delay period
+  for (int i = 0; i < 3; i++) { shim_clock_advance_ms(adelay); mi_collect(false); void* q = mi_malloc(100); mi_free(q); }
   size_t pur_b2; shim_range_stats(sb, MI_SEGMENT_SIZE, NULL, NULL, NULL, &pur_b2);
-  const long long g2 = (long long)mi_atomic_loadi64_relaxed(&mi_arenas_purge_expire);
-  const long long eb2 = (long long)mi_atomic_loadi64_relaxed(&Bq->purge_expire);
-  const unsigned long long pb2 = U(Bq->blocks_purge[0]);
-  mi_collect(true);
-  size_t pur_b3; shim_range_stats(sb, MI_SEGMENT_SIZE, NULL, NULL, NULL, &pur_b3);
-  printf("T witness setup=%d adelay=%ld t0=%lld freeA=t0 freeB=t0+%ld collect1=t0+%ld madvise_after_collect1=%zu global_after=%lld B_expire_after=%lld B_purged_bytes=%zu | idle_until=t0+%lld madvise_after_idle=%zu global=%lld B_expire=%lld B_blocks_purge=%llu B_purged_bytes=%zu | after_forced_collect B_purged_bytes=%zu\n",
-         ok_setup, adelay, (long long)t0, adelay / 2, adelay / 2 + adelay / 2 + adelay / 5, madv1, g1, eb1, pur_b1,
-         (long long)(shim_clock_now_ms() - t0), madv2, g2, eb2, pb2, pur_b2, pur_b3);
+  printf("T witness scenario=two-arenas setup=%d adelay=%ld t0=%lld freeA=0 freeB=%ld collect1=%ld global_after_collect1=%lld B_expire_after_collect1=%lld B_purged_after_collect1=%zu idle_until=%lld global=%lld B_expire=%lld B_blocks_purge=%llu B_purged_after_idle=%zu expected=%zu\n",
+         ok_setup, adelay, (long long)t0, adelay / 2, adelay + adelay / 5, g1, eb1, pur_b1,
+         (long long)(shim_clock_now_ms() - t0), (long long)mi_atomic_loadi64_relaxed(&mi_arenas_purge_expire),
+         (long long)mi_atomic_loadi64_relaxed(&Bq->purge_expire), U(Bq->blocks_purge[0]), pur_b2, (size_t)MI_SEGMENT_SIZE);
+}
+static void witness_single_arena(void) {
+  const long adelay = mi_option_get(mi_option_purge_delay) * mi_option_get(mi_option_arena_purge_mult);
+  void* p = mi_malloc(20 << 20); void* q = mi_malloc(20 << 20); void* keep = mi_malloc(100);
+  mi_segment_t* sq = _mi_ptr_segment(q);
+  const size_t qsize = mi_segment_size(sq);
+  const int ok_setup = (mi_arena_get_count() == 1 && sq->memid.memkind == MI_MEM_ARENA && _mi_ptr_segment(p)->memid.memkind == MI_MEM_ARENA);
+  mi_arena_t* A = (mi_arena_get_count() > 0 ? mi_arena_from_index(0) : NULL);
+  const mi_msecs_t t0 = shim_clock_now_ms();
+  shim_reset_log();
+  mi_free(p);                                    // t0: arena expire = global = t0+adelay
+  shim_clock_advance_ms(adelay / 10);
+  mi_collect(true);                              // t0+0.1 adelay: forced pass purges p's block; the global expiry stays armed
+  shim_clock_advance_ms(adelay / 2 - adelay / 10);
+  mi_free(q);                                    // t0+0.5 adelay: arena expire = t0+1.5 adelay
+  shim_clock_advance_ms(adelay / 2 + adelay / 5);
+  mi_collect(false);                             // t0+1.2 adelay: pass runs (global passed), the arena has not expired yet
+  const long long g1 = (long long)mi_atomic_loadi64_relaxed(&mi_arenas_purge_expire);
+  const long long e1 = (A ? (long long)mi_atomic_loadi64_relaxed(&A->purge_expire) : -1);
+  size_t pur1; shim_range_stats((uint8_t*)sq, qsize, NULL, NULL, NULL, &pur1);
+  for (int i = 0; i < 3; i++) { shim_clock_advance_ms(adelay); mi_collect(false); void* x = mi_malloc(64); mi_free(x); }
+  size_t pur2; shim_range_stats((uint8_t*)sq, qsize, NULL, NULL, NULL, &pur2);
+  printf("T witness scenario=single-arena setup=%d adelay=%ld t0=%lld free_p=0 forced_collect=%ld free_q=%ld collect1=%ld global_after_collect1=%lld A_expire_after_collect1=%lld q_purged_after_collect1=%zu idle_until=%lld global=%lld A_expire=%lld A_blocks_purge=%llu B_purged_after_idle=%zu expected=%zu\n",
+         ok_setup, adelay, (long long)t0, adelay / 10, adelay / 2, adelay + adelay / 5, g1, e1, pur1,
+         (long long)(shim_clock_now_ms() - t0), (long long)mi_atomic_loadi64_relaxed(&mi_arenas_purge_expire),
+         (A ? (long long)mi_atomic_loadi64_relaxed(&A->purge_expire) : -1), (A ? U(A->blocks_purge[0]) : 0), pur2, qsize);
+  mi_free(keep);
 }
 
 int main(int argc, char** argv) {
@@ -554,8 +578,11 @@ int main(int argc, char** argv) {
     int dec = (argc > 4 ? atoi(argv[4]) : 1);
     workloads(delay, dec);
   }
+  else if (mode[1] == '2') {
+    witness_single_arena();
+  }
   else {
-    witness();
+    witness_two_arenas();
   }
   printf("END\n");
   return 0;
